@@ -120,6 +120,8 @@ TreeT == WithId([
   cls |-> [g |-> "ok", t1 |-> "ok", a2 |-> "ok", a3 |-> "ok", a4 |-> "ok", b2 |-> "ok", b3 |-> "ok"],
   lo  |-> [g |-> 0, t1 |-> 1, a2 |-> 2, a3 |-> 3, a4 |-> 4, b2 |-> 2, b3 |-> 3],
   hi  |-> [g |-> 0, t1 |-> 1, a2 |-> 2, a3 |-> 3, a4 |-> 4, b2 |-> 2, b3 |-> 3]])
+\* checkpoint-bootstrapped victim: v holds t1 and what is above it on its own fork (TreeT)
+BaseCpV == [n \in HB |-> IF n = "v" THEN "t1" ELSE "g"]
 TipsTwin == {[n \in HB |-> IF n = "p" THEN "a4" ELSE "b3"]}
 TwinTops == {"a3", "a4"}
 
